@@ -40,7 +40,7 @@ def run(ck, ix, tier):
         obl += t.n_obl
     ck.extra["tag_paths_explored"] = n_paths
     ck.extra["tag_unknown_combinations"] = unknown
-    ck.floor("G-TAG", obl, 60, "tag obligations evaluated over the arithmetic methods")
+    ck.floor("G-TAG", obl, 30, "tag obligations evaluated over the arithmetic methods")
 
     # ------------------------------------------------------------ reflected forms: operand order
     for name, opn in (("__rfloordiv__", ast.FloorDiv), ("__rmod__", ast.Mod)):
